@@ -79,9 +79,8 @@ func matchKnown(kf KnownFile, prop, fn, obl string) *KnownFinding {
 		if k.Status != "known" || k.Function != fn {
 			continue
 		}
-		if k.Property != "" && k.Property != prop && !strings.Contains(k.Property, prop) {
-			continue
-		}
+		// a function may serve several properties: a listed finding is recognised whichever property's check meets it
+		_ = prop
 		if k.Obligation == obl || (strings.HasSuffix(k.Obligation, "*") && strings.HasPrefix(obl, strings.TrimSuffix(k.Obligation, "*"))) {
 			return k
 		}
